@@ -192,9 +192,13 @@ func genCase(r *hx.Rng, tier string) []op {
 	default:
 		g.kind = "sync"
 	}
-	switch r.Intn(4) {
+	transient := false // single failed fetch at the tick after a notice, everything else answered
+	switch r.Intn(5) {
 	case 0:
 		g.failPct, g.noidxPct = 0, 0
+	case 4:
+		g.failPct, g.noidxPct = 0, 0
+		transient = true
 	case 1:
 		g.failPct, g.noidxPct = 35, 10
 	default:
@@ -261,7 +265,15 @@ func genCase(r *hx.Rng, tier string) []op {
 		if g.kind == "sync" && clock/g.spe/g.epp != s/g.spe/g.epp && r.Chance(90) {
 			clock = s
 		}
-		ops = append(ops, op{name: "tick", slot: s, clock: clock, f1: g.res(s), f2: g.res(s)})
+		tk := op{name: "tick", slot: s, clock: clock, f1: g.res(s), f2: g.res(s)}
+		if transient && len(ops) > 0 && ops[len(ops)-1].name != "tick" && ops[len(ops)-1].name != "reset" && r.Chance(60) {
+			if r.Bool() {
+				tk.f1 = fres{kind: 'f'}
+			} else {
+				tk.f2 = fres{kind: 'f'}
+			}
+		}
+		ops = append(ops, tk)
 		p := 12
 		if lastOfEpoch {
 			p = 45
